@@ -233,7 +233,21 @@ func init() {
 							n++
 						}
 					}
-					if n+1 >= len(msg.Fields) {
+					real := 0 // an embedded message without fields leaves nothing to convert
+					for _, mf := range msg.Fields {
+						if mf.Embed {
+							if sub := f.Msg(mf.Type); sub != nil && len(sub.Fields) == 0 {
+								continue
+							}
+						}
+						real++
+					}
+					for _, x := range occ {
+						if x.Message == oc.Message && x.EmbedKey != "" && ir.Has(c0.ExcludeFields, x.EmbedKey) {
+							n++
+						}
+					}
+					if n+1 >= real {
 						opt = "sensitive_fields"
 						if hasAnyKey(c0, opt, oc.TypeKey, oc.FullKey, oc.EmbedKey) {
 							opt = ""
